@@ -186,14 +186,15 @@ def populate_samples_full : Prop :=
     BE a visible source sample, but when two sources overlap in time the compacting merger reads the
     overlapping chunks through `ChainedSeriesMerge`, whose `AtHistogram` resets a non-gauge counter-reset
     hint to "unknown" whenever the previous sample came from another input (C19 `Chain.atSample`, C12).
-    Two blocks with one series `{a="1"}`: histograms with hint 1 at t = 10, 20 and at t = 15; the block
+    Two blocks with one series `{a="1"}`: histograms (counts 1, 3 and 2: no counter reset in the merged
+    stream, hence one chunk) with hint 1 at t = 10, 20 and at t = 15; the block
     written holds the three timestamps, all with hint 0 — none of them is literally a source sample.
     This is intended behaviour of the code (hints must not survive re-ordering), so the statement, not
     the code, is wrong; `populate_samples_nohint_full` is the repaired statement (proved:
     `populate_samples_nohint`), `populate_samples_merge` the version with hints. -/
 theorem populate_samples_full_witness : ¬ populate_samples_full := by
   intro h
-  have hwf : ∀ b ∈ [(⟨0, 100, [⟨[("a", "1")], [Chunk.ofSamples [⟨10, .hist, 5⟩, ⟨20, .hist, 5⟩]], []⟩]⟩ : Block),
+  have hwf : ∀ b ∈ [(⟨0, 100, [⟨[("a", "1")], [Chunk.ofSamples [⟨10, .hist, 5⟩, ⟨20, .hist, 13⟩]], []⟩]⟩ : Block),
       ⟨0, 100, [⟨[("a", "1")], [Chunk.ofSamples [⟨15, .hist, 9⟩]], []⟩]⟩],
       (∀ s ∈ b.series, SeriesWF s) ∧ Asc (b.series.map (·.labels)) := by
     intro b hb
@@ -214,7 +215,7 @@ theorem populate_samples_full_witness : ¬ populate_samples_full := by
       · unfold Intervals.AllI64 Intervals.I64; decide
       · unfold Intervals.I64; decide
   have := (h _ 1 100
-    ⟨[([("a", "1")], [⟨10, 20, [⟨10, .hist, 4⟩, ⟨15, .hist, 8⟩, ⟨20, .hist, 4⟩]⟩])], ⟨1, 1, 3, 0, 3⟩⟩
+    ⟨[([("a", "1")], [⟨10, 20, [⟨10, .hist, 4⟩, ⟨15, .hist, 8⟩, ⟨20, .hist, 12⟩]⟩])], ⟨1, 1, 3, 0, 3⟩⟩
     hwf (by unfold RangeOK; decide) (by rfl) [("a", "1")]).2.1 ⟨10, .hist, 4⟩ (by decide)
   revert this
   decide
